@@ -178,6 +178,47 @@ const STRS: [&str; 14] = ["", "a", "hello", ", ", "[ ]", "(1, 2)", "some(x)", "n
 /// which is what `string_from_float` is defined as (trusted, like `i64::to_string`)
 const FLOATS: [&str; 12] = ["0.0", "0.5", "2.0", "-1.25", "3.14159", "100.0", "0.1", "1234567.875", "1000000000000000000000.0", "0.00000015", "-0.0", "123456789012345680.0"];
 
+/// an int next to a change of its decimal length: ±(10^k - d), ±(10^k + d), k = 0..18, d mostly 0..3,
+/// up to 300 for k >= 15 (where an f64 can no longer tell 10^k - d from 10^k)
+fn dec_boundary(rng: &mut Rng) -> i64 {
+    let k = rng.below(19) as u32;
+    let p = 10i128.pow(k);
+    let d = if k >= 15 && rng.chance(1, 2) { rng.range(1, 300) } else { rng.range(0, 3) } as i128;
+    let m = if rng.chance(2, 3) { p - d } else { p + d };
+    let m = m.clamp(0, i64::MAX as i128) as i64;
+    if rng.chance(1, 2) { -m } else { m }
+}
+/// an int next to a power of two
+fn pow2_boundary(rng: &mut Rng) -> i64 {
+    let k = rng.below(63) as u32;
+    let m = (1i64 << k).wrapping_add(rng.range(-2, 2));
+    if rng.chance(1, 2) { m.wrapping_neg() } else { m }
+}
+/// every decimal-length boundary: ±(10^k ± d) for k = 0..18, d = 0..3, and ±(10^k - d) for k = 15..18, d = 1..=`deep`
+fn dec_boundaries(deep: i128) -> Vec<i64> {
+    let mut v: Vec<i64> = vec![];
+    for k in 0..19u32 {
+        let p = 10i128.pow(k);
+        for d in 0..=3i128 {
+            for m in [p - d, p + d] {
+                if m >= 0 && m <= i64::MAX as i128 {
+                    v.push(m as i64);
+                    v.push(-(m as i64));
+                }
+            }
+        }
+        if k >= 15 {
+            for d in 4..=deep {
+                v.push((p - d) as i64);
+                v.push(-((p - d) as i64));
+            }
+        }
+    }
+    v.sort();
+    v.dedup();
+    v
+}
+
 fn float_val(lit: &str) -> V {
     let x: f64 = lit.parse().unwrap();
     V::Ext(lit.to_string(), x.to_string(), "float")
@@ -226,7 +267,12 @@ fn gen_ty(rng: &mut Rng, depth: usize) -> Ty {
 fn gen_val(rng: &mut Rng, ty: &Ty, budget: &mut i64) -> V {
     *budget -= 1;
     match ty {
-        Ty::Int => V::Int(if rng.chance(1, 3) { rng.next() as i64 } else { *rng.pick(&INTS) }),
+        Ty::Int => V::Int(match rng.below(6) {
+            0 | 1 => rng.next() as i64,
+            2 | 3 => dec_boundary(rng),
+            4 => pow2_boundary(rng),
+            _ => *rng.pick(&INTS),
+        }),
         Ty::Bool => V::Bool(rng.chance(1, 2)),
         Ty::Void => V::Nil,
         Ty::Str => V::Str((*rng.pick(&STRS)).to_string()),
@@ -538,6 +584,39 @@ fn main() {
         jobs.push(make_job(&ty, &v, mode, other));
     }
 
+    // ints at every change of decimal length (the digit count is where a hand-written int-to-text goes wrong):
+    // each value bare, via str into a local, via `..`, and nested in array / tuple / option / result
+    {
+        let vals = dec_boundaries(if quick { 300 } else { 3000 });
+        for (ci, chunk) in vals.chunks(40).enumerate() {
+            let mut stmts: Vec<(String, String, String)> = vec![];
+            let arr = V::Arr(chunk.iter().map(|n| V::Int(*n)).collect());
+            let mut src = format!("let xs: array<int> = {}\n", arr.src());
+            stmts.push(("println(xs)".into(), format!("println {}", arr.req()), arr.render() + "\n"));
+            for (i, n) in chunk.iter().enumerate() {
+                let v = V::Int(*n);
+                let lit = v.src();
+                match (i + ci) % 6 {
+                    0 => stmts.push((format!("print({lit})"), format!("print {}", v.req()), v.render())),
+                    1 => stmts.push((format!("let s{i} = ToString.str(xs[{i}])\nprint(s{i})"), format!("str {}", v.req()), v.render())),
+                    2 => stmts.push((format!("print(\"<\" .. xs[{i}] .. \">\")"), format!("chain 3 S {} {} S {}", hex(b"<"), v.req(), hex(b">")), format!("<{}>", v.render()))),
+                    3 => { let t = V::Tup(vec![v.clone(), V::Bool(true), v.clone()]); stmts.push((format!("print(({lit}, true, xs[{i}]))"), format!("print {}", t.req()), t.render())) }
+                    4 => { let t = V::Some(Box::new(v.clone())); stmts.push((format!("let o{i}: option<int> = option.some({lit})\nprintln(o{i})"), format!("println {}", t.req()), t.render() + "\n")) }
+                    _ => { let t = V::Err(Box::new(V::Arr(vec![v.clone(), v.clone()]))); stmts.push((format!("let r{i}: result<string, array<int>> = result.err([{lit}, xs[{i}]])\nprint(r{i})"), format!("print {}", t.req()), t.render())) }
+                }
+                stmts.push(("print(\" \")".into(), format!("lit {}", hex(b" ")), " ".into()));
+            }
+            let mut expect = String::new();
+            for (a, _, e) in &stmts {
+                src.push_str(a);
+                src.push('\n');
+                expect.push_str(e);
+            }
+            let req = format!("render multi {}", stmts.iter().map(|s| s.1.clone()).collect::<Vec<_>>().join(" ; "));
+            jobs.push(Job { req, src, expect, hist: vec!["int-decimal-length-boundaries(40 values)"], mode: "int-boundaries", depth: 2 });
+        }
+    }
+
     // rendering must be observationally pure: run-time-built, shared strings, every value rendered repeatedly
     // directed, minimal: one run-time-built string, shared, rendered twice
     {
@@ -573,7 +652,12 @@ fn main() {
         let imp = match &r.outcome {
             Outcome::Done => {
                 if r.out != j.expect {
-                    ctx.spec_fail(format!("rendered text differs from the documented format: program `{}`: printed {:?}, documented {:?}", j.src.trim_end().replace('\n', "; "), r.out, j.expect));
+                    // the first place where the two texts part, with a little context on both sides
+                    let (a, b): (Vec<char>, Vec<char>) = (r.out.chars().collect(), j.expect.chars().collect());
+                    let at = a.iter().zip(b.iter()).position(|(x, y)| x != y).unwrap_or(a.len().min(b.len()));
+                    let from = at.saturating_sub(24);
+                    let cut = |v: &Vec<char>| v[from.min(v.len())..(at + 24).min(v.len())].iter().collect::<String>();
+                    ctx.spec_fail(format!("rendered text differs from the documented format at character {at}: printed …{:?}…, documented …{:?}…; program `{}`: printed {:?}, documented {:?}", cut(&a), cut(&b), j.src.trim_end().replace('\n', "; "), r.out, j.expect));
                 }
                 hex(r.out.as_bytes())
             }
